@@ -55,12 +55,13 @@ uint64_t verif_val(Node *n) { return cg_val[cg_idx(n)]; }
 //  integers <= 32 bits: low 32 bits of rax hold the value extended to 32 bits (upper half unspecified);
 //  64-bit integers / pointers / aggregates (address): rax;  float: low 32 bits of xmm0;  double: xmm0;
 //  long double: %st(0) (integer-valued model);  void: nothing.
+#define CG_LDNAN 0x7ff8deadbeef0001UL     /* ghost value standing for 'a long double NaN' (not used as an integer value) */
 static inline _Bool cg_holds(Type *ty, uint64_t v) {
   switch (ty->kind) {
   case TY_VOID: return 1;
   case TY_FLOAT: return (uint32_t)m.xmm[0] == (uint32_t)v;
   case TY_DOUBLE: return m.xmm[0] == v;
-  case TY_LDOUBLE: return m.x87 >= 1 && m.st_int[m.x87 - 1] == 1 && (uint64_t)m.st[m.x87 - 1] == v;
+  case TY_LDOUBLE: return m.x87 >= 1 && (v == CG_LDNAN ? m.st_int[m.x87 - 1] == 3 : (m.st_int[m.x87 - 1] == 1 && (uint64_t)m.st[m.x87 - 1] == v));
   case TY_BOOL: case TY_CHAR: case TY_SHORT: case TY_INT: case TY_ENUM:
     return (uint32_t)m.r[RAX] == (uint32_t)v;
   default: return m.r[RAX] == v;
@@ -69,6 +70,7 @@ static inline _Bool cg_holds(Type *ty, uint64_t v) {
 static inline int cg_x87_delta(Type *ty) { return ty->kind == TY_LDOUBLE ? 1 : 0; }
 
 #define CG_INACTIVE (__CPROVER_old(m.skip) || __CPROVER_old(m.halt))
+#define CG_X87_KEEP(i) __CPROVER_ensures(CG_INACTIVE || (i) >= __CPROVER_old(m.x87) || (m.st[i] == __CPROVER_old(m.st[i]) && m.st_int[i] == __CPROVER_old(m.st_int[i])))
 #define CG_STK_KEEP(i) __CPROVER_ensures(CG_INACTIVE || (i) >= __CPROVER_old(m.sp) || gm_stk[i] == __CPROVER_old(gm_stk[i]))
 
 // Contract of gen_expr: one value, balanced stack, nothing below the entry stack pointer touched; children are
@@ -90,6 +92,7 @@ __CPROVER_ensures(CG_INACTIVE || node == cg_root || (m.nev == __CPROVER_old(m.ne
 __CPROVER_ensures(CG_INACTIVE || (m.cw_trunc == __CPROVER_old(m.cw_trunc) && (node == cg_root || m.locked_writes == __CPROVER_old(m.locked_writes)) && (node == cg_root ? m.plain_writes_dm >= __CPROVER_old(m.plain_writes_dm) : m.plain_writes_dm == __CPROVER_old(m.plain_writes_dm))))
 CG_STK_KEEP(0) CG_STK_KEEP(1) CG_STK_KEEP(2) CG_STK_KEEP(3) CG_STK_KEEP(4) CG_STK_KEEP(5) CG_STK_KEEP(6) CG_STK_KEEP(7)
 CG_STK_KEEP(8) CG_STK_KEEP(9) CG_STK_KEEP(10) CG_STK_KEEP(11) CG_STK_KEEP(12) CG_STK_KEEP(13) CG_STK_KEEP(14) CG_STK_KEEP(15)
+CG_X87_KEEP(0) CG_X87_KEEP(1) CG_X87_KEEP(2) CG_X87_KEEP(3) CG_X87_KEEP(4) CG_X87_KEEP(5) CG_X87_KEEP(6) CG_X87_KEEP(7)   /* x87 registers below the entry depth keep their contents */
 ;
 
 // Contract of gen_stmt: a statement leaves no value and no residue; it may end with a jump pending to a label outside
@@ -110,6 +113,7 @@ __CPROVER_ensures(CG_INACTIVE || node == cg_root || (m.nev == __CPROVER_old(m.ne
 __CPROVER_ensures(CG_INACTIVE || (m.cw_trunc == __CPROVER_old(m.cw_trunc) && (node == cg_root || m.locked_writes == __CPROVER_old(m.locked_writes)) && (node == cg_root ? m.plain_writes_dm >= __CPROVER_old(m.plain_writes_dm) : m.plain_writes_dm == __CPROVER_old(m.plain_writes_dm))))
 CG_STK_KEEP(0) CG_STK_KEEP(1) CG_STK_KEEP(2) CG_STK_KEEP(3) CG_STK_KEEP(4) CG_STK_KEEP(5) CG_STK_KEEP(6) CG_STK_KEEP(7)
 CG_STK_KEEP(8) CG_STK_KEEP(9) CG_STK_KEEP(10) CG_STK_KEEP(11) CG_STK_KEEP(12) CG_STK_KEEP(13) CG_STK_KEEP(14) CG_STK_KEEP(15)
+CG_X87_KEEP(0) CG_X87_KEEP(1) CG_X87_KEEP(2) CG_X87_KEEP(3) CG_X87_KEEP(4) CG_X87_KEEP(5) CG_X87_KEEP(6) CG_X87_KEEP(7)   /* x87 registers below the entry depth keep their contents */
 ;
 
 #ifndef CG_OWN_CALL_HOOK
